@@ -36,6 +36,10 @@ def fault_fn(task_name: str, nout: int, fault: dict | None):
             k = fault["kind"]
             if k == "raise":
                 raise RuntimeError("injected task failure")
+            if k == "raise_empty":
+                raise RuntimeError  # an exception whose str() is empty
+            if k == "assert":
+                assert False
             if k == "exit":
                 _sys.exit(fault.get("code", 3))
             if k == "os_exit":
